@@ -316,6 +316,10 @@ func (pe *PE) eval(st *peState, e ast.Expr) Val {
 			if l.K == vNil && r.K == vNil {
 				return boolVal(x.Op == token.EQL)
 			}
+			// a tracked struct value (e.g. supplied by an oracle for a pointer result) is not nil
+			if l.K == vStruct || r.K == vStruct {
+				return boolVal(x.Op == token.NEQ)
+			}
 		}
 		return Val{}
 	case *ast.CallExpr:
@@ -1755,4 +1759,24 @@ func flatStmts(list []ast.Stmt) []ast.Stmt {
 		}
 	}
 	return out
+}
+
+// elementLoopIdx: elementLoop plus the variable that holds the element's position (nil when the loop has none)
+func elementLoopIdx(info *types.Info, loop ast.Stmt) (*ast.BlockStmt, types.Object, types.Object) {
+	body, ch := elementLoop(info, loop)
+	if body == nil {
+		return nil, nil, nil
+	}
+	switch x := loop.(type) {
+	case *ast.RangeStmt:
+		if x.Key != nil {
+			return body, ch, identObj(info, x.Key)
+		}
+		return body, ch, nil
+	case *ast.ForStmt:
+		if init, ok := x.Init.(*ast.AssignStmt); ok && len(init.Lhs) == 1 {
+			return body, ch, identObj(info, init.Lhs[0])
+		}
+	}
+	return body, ch, nil
 }
